@@ -9,7 +9,9 @@ ID = 'C06'
 TITLE = 'Formula results do not depend on evaluation order'
 PROPS = ['Props/C06']
 RULE = ('tie: random documents with 1-5 formula columns from the grammar n | $X | $R.X | a+b | (a if c>0 else b) | 1/0 | '
-        'try/except (cycles allowed, 1-3 rows), follow-up bundles (data/reference edits, formula changes, new rows), each in '
+        'try/except | try/except re-raising CircularRefError | len(T.lookupRecords(K=e)) | T.lookupOne(K=e).id | '
+        'sum(r.X for r in T.lookupRecords(K=e)) with K the data column or a lookup-free key formula column '
+        '(cycles allowed, 1-3 rows), follow-up bundles (data/reference edits, formula changes, new rows), each in '
         'a fresh engine whose work items are permuted by a random priority (lookup nodes first); every recorded update '
         'loop is one case, non-trivial when at least one OrderError reordering, cycle or opportunistic evaluation '
         'occurred. search: (a) shared random histories (acyclic programs, full action vocabulary) and (b) cyclic $col '
@@ -22,17 +24,23 @@ TRUSTED = ['Model/Sched.v is hand-written; tied to engine.py on every run by rep
            'exact except where the engine\'s row iteration skips a row because nested calls shrink the set it iterates)',
            'harness/schedtrace.py: instrumentation wrappers and the translation of recorded events to model labels '
            '(a wrong translation makes the replay fail, it cannot make it pass: every label is re-executed by the model)',
-           'the formula grammar of the tie: formulas outside it (lookups, summary tables, trigger formulas) are covered by '
-           'the search only (kernel strength)']
-ASSUMPTIONS = ['sched_confluent/C06: formulas do not handle exceptions (strict_prog) or the program is acyclic; the '
+           'the formula grammar of the tie (incl. single-key lookupRecords/lookupOne on one table with mid-loop invalidation '
+           'events): formulas outside it (sorted/CONTAINS/cross-table lookups, PREVIOUS/NEXT/RANK, summary tables, trigger '
+           'formulas) are covered by the search only (kernel strength)']
+ASSUMPTIONS = ['sched_confluent/C06: no handler catches CircularRefError (cre_strict_prog; strict_prog is the special case '
+               'without handlers; handler_gap_exact shows the condition is exact per handler) or the program is acyclic; the '
                'starting state is consistent (wf_init: clean cells hold their from-scratch value) - monitored on the '
                'recorded loops by check_scratch',
-               'lookup-index nodes are processed first in every permutation (the engine\'s own rule)']
+               'lookup-index nodes are processed first in every permutation (the engine\'s own rule); theorems '
+               'lookups_first_no_lost_invalidation / engine_order_is_lookups_first / lookups_first_is_needed say what it buys; '
+               'after_lookups_confluent assumes the state is consistent once all index cells are clean (invalidation complete: C05)']
 TECHNIQUE = ('Coq proof about a nondeterministic transition system of the update loop + trace refinement of recorded engine '
              'runs (vm_compute) + differential runs of the engine under permuted work-item orders')
-LEVEL_TEXT = ('Kernel-checked: every run of the scheduler model terminates and never gets stuck; all complete runs from a '
-              'consistent state end in the same cell values for acyclic programs (handlers allowed) and for arbitrary '
-              'cyclic programs whose formulas do not catch exceptions; corollary for every permutation of the engine\'s '
+LEVEL_TEXT = ('Kernel-checked: every run of the scheduler model terminates (also with mid-loop lookup invalidation) and never '
+              'gets stuck; all complete runs from a consistent state end in the same cell values for acyclic programs '
+              '(handlers allowed) and for arbitrary cyclic programs whose handlers do not catch CircularRefError (exact per '
+              'handler); with the lookups-first rule no invalidation is lost (and without it the result is stale, witness '
+              'replayed on the engine); corollary for every permutation of the engine\'s '
               'work items. The full statement is refuted in the model by a try/except formula on a cycle, reproduced on '
               'the engine (known finding). Kernel strength: the model covers the scheduler and a formula grammar, not '
               'lookups/summaries, which the permutation search exercises on the implementation.')
@@ -42,13 +50,13 @@ LEVEL_NOTE = ('Trusted: Coq kernel; hand-written Sched.v tied by trace replay; i
 
 # ---- tie ------------------------------------------------------------------------------------------------
 
-def traced_cases(ctx, n_docs, p_try, rng=None, n_edits=3):
+def traced_cases(ctx, n_docs, p_try, rng=None, n_edits=3, p_tryo=0.0, p_lookup=0.0):
   """[(coq term, info, stats)] from n_docs random documents."""
   rng = rng or ctx.rng
   out = []
   skipped = collections.Counter()
   for _ in range(n_docs):
-    prog = ST.gen_program(rng, p_try=p_try)
+    prog = ST.gen_program(rng, p_try=p_try, p_tryo=p_tryo, p_lookup=p_lookup)
     n = rng.choice([1, 2, 2, 3])
     d, r = ST.gen_rows(rng, n)
     pseed = rng.randrange(1 << 30)
@@ -130,14 +138,40 @@ def run_tie(ctx, name, cases, shard=60):
   return sorted((i, label) for label, _ in CHECKS for i in res[label])
 
 
+def lookups_rule_demo(lookups_last):
+  """The document of Props/C06.v lookups_first_is_needed on the real engine; returns column B after the bundle."""
+  e, _ = G.new_doc()
+  if lookups_last:
+    o_sort = e._make_sorted_work_items
+    def sort_items(nodes):
+      items = o_sort(nodes)
+      # work items are popped from the end of the list: lookup nodes at the front are processed LAST
+      return ([w for w in items if w.node.col_id.startswith('#lookup')] +
+              [w for w in items if not w.node.col_id.startswith('#lookup')])
+    e._make_sorted_work_items = sort_items
+  G.apply(e, [['AddTable', 'T', [{'id': 'D', 'type': 'Int', 'isFormula': False}, {'id': 'E', 'type': 'Int', 'isFormula': False},
+                                 {'id': 'Z', 'type': 'Any', 'isFormula': True, 'formula': 'len(T.lookupRecords(D=$D))'},
+                                 {'id': 'B', 'type': 'Any', 'isFormula': True, 'formula': '$Z + $E'}]]])
+  G.apply(e, [['BulkAddRecord', 'T', [None, None], {'D': [1, 2], 'E': [0, 0]}]])
+  G.apply(e, [['UpdateRecord', 'T', 2, {'D': 1}], ['UpdateRecord', 'T', 1, {'E': 9}]])
+  return G.snapshot(e, tables=['T'])['T']['cols']['B']
+
+
 def correspond(ctx):
-  cases = traced_cases(ctx, ctx.n(30, 500), p_try=0.15)
+  # the model's claim about the lookups-first rule (theorem lookups_first_is_needed), on the engine
+  first, last = ST.limited2(lambda: lookups_rule_demo(False)), ST.limited2(lambda: lookups_rule_demo(True))
+  ctx.bump('tie:lookups-first example replayed on the engine')
+  if first != [11, 2] or last != [10, 2]:
+    ctx.broken('correspondence:lookups_first_is_needed', 'engine order gives B = %r (model: [11, 2]); lookups last gives '
+               'B = %r (model: [10, 2], a lost invalidation)' % (first, last))
+  cases = traced_cases(ctx, ctx.n(30, 500), p_try=0.12, p_tryo=0.2, p_lookup=0.4)
   for term, info, st, strict, _edges in cases:
     nontrivial = bool(st.get('need') or st.get('cycle') or st.get('opp'))
     ctx.count(term, nontrivial=nontrivial, sample=info if nontrivial else None,
               kind='tie:' + ('cycle' if st.get('cycle') else 'reorder' if st.get('need') else 'plain'))
-    for k in ('done', 'need', 'cycle', 'opp', 'opp_abandoned'):
+    for k in ('done', 'need', 'cycle', 'opp', 'opp_abandoned', 'invalidated'):
       ctx.bump('events:' + k, st.get(k, 0))
+    ctx.bump('tie:loops with lookups', int(any(ST.has_lookup(K2a) for K2a in map(tuple_of, info['prog'].values()))))
   bad = run_tie(ctx, 'tie', cases)
   for j, which in bad[:5]:
     ctx.broken('correspondence:%s fails on a recorded update loop' % which, 'document %r' % (cases[j][1],))
@@ -252,8 +286,8 @@ def on_cycle_with_try(progs):
   return False
 
 
-def gen_prog_case(rng, p_try):
-  prog = ST.gen_program(rng, p_try=p_try)
+def gen_prog_case(rng, p_try, p_tryo=0.0, p_lookup=0.0):
+  prog = ST.gen_program(rng, p_try=p_try, p_tryo=p_tryo, p_lookup=p_lookup)
   n = rng.choice([1, 2, 2, 3])
   d, r = ST.gen_rows(rng, n)
   versions = [copy.deepcopy(prog)]
@@ -320,7 +354,7 @@ def search(ctx):
   # (b) cyclic grammar programs without handlers; (c) with handlers
   for stream, p_try, n in (('strict', 0.0, ctx.n(40, 800)), ('handlers', 0.5, ctx.n(12, 150))):
     for _ in range(n):
-      versions, d, r, edits = gen_prog_case(ctx.rng, p_try)
+      versions, d, r, edits = gen_prog_case(ctx.rng, p_try, 0.25 if stream == 'strict' else 0.0, 0.35)
       pseeds = [ctx.rng.randrange(1 << 30) for _ in range(k)]
       w = {'stream': stream, 'prog': {c: list_of(a) for c, a in versions[0].items()}, 'd': d, 'r': r, 'edits': edits,
            'pseeds': pseeds, 'versions': [{c: list_of(a) for c, a in ver.items()} for ver in versions]}
